@@ -236,6 +236,8 @@ def run(ctx):
                 res.violation("OTHER", "edgegraph.structure.twoendedlink.TwoEndedLink.other", f"end={case}",
                               f"other(a) on ends {show(Seq(ends))} gives {out!r}, expected {show(want)}")
     res.rule("OTHER", 15)
+    from rules import structural
+    structural.filter_mpt(ctx, FN)
     common.vacuity(res, "TABLE", 900)
     res.explanation = ("Every abstract input class of neighbors() (540 single-link rows, their FORWARD/BACKWARD mirror images, and ordered pairs of "
                        "rows with selective filters) was evaluated on the current source under abstract semantics and compared with the table "
